@@ -1,10 +1,12 @@
 #!/bin/bash
-# usage: lib/regress_mutants.sh [pattern]  -- applies every seeded mutation in turn to /repo, runs the quick check of its
-# property, reverts; one line per mutation. Needs a clean /repo; leaves it clean.
+# usage: lib/regress_mutants.sh [pattern]  -- applies every seeded mutation in turn to /repo, runs the quick check that is
+# recorded as detecting it, reverts; one line per mutation. Needs a clean /repo; leaves it clean.
 cd /verif
 git -C /repo diff --quiet || { echo "/repo is dirty"; exit 9; }
 for d in /verif/seeded/${1:-*}/; do
-  m=$(basename $d); c=${m%%-*}
+  m=$(basename $d)
+  # the check named first in meta.json's detected_by (a few mutations are outside their own property's workload)
+  c=$(python3 -c "import json,sys; print(json.load(open(sys.argv[1]))['detected_by'][0].split(':')[0])" $d/meta.json)
   git -C /repo apply $d/patch.diff || { echo "$m patch does not apply"; continue; }
   timeout 3000 ./check $c --tier quick > /verif/evidence/work/regress-$m.log 2>&1; rc=$?
   git -C /repo checkout -- .
